@@ -6,32 +6,230 @@ from ..core import Result, HarnessBug
 ID = "C09"
 LEVEL = "exploration"
 BUDGET = {"quick": 6000, "thorough": 1200000}
-RULE = ("case = three values of one family (Int | Float(no NaN) | String | Type | plain struct | sequences "
-        "Array/List/Tuple of mixed kinds | Tree) built in generated allocation classes; all 9 ordered pairs are "
-        "compared with cmp and the six predicates, then the values are used as Tree keys. non-trivial = some "
-        "pair is reference-unequal and (Int: |a-b| >= 2^31; Float: involves +-0, inf, a denormal or 1-ulp neighbours; "
-        "String: proper prefix or a byte >= 0x80; Type/struct: always; sequence/Tree: common prefix >= 1 element and "
-        "differing in length or in the last compared element). distinct = distinct case JSON.")
+RULE = ("case = three values of one family (Int | Float(no NaN) | String, incl. strings sharing a 31..4097 byte prefix | Type, "
+        "static and run-time created (new(Type, name, size)) with prefix-related names | plain struct of 3, 16, 20 or 75 bytes | "
+        "sequences Array/List/Tuple of mixed kinds with Int, String, Float or 20-byte struct elements, up to 30 elements, also Tuples of Arrays/Lists/Tuples | Tree) built in "
+        "generated allocation classes (heap, stack, embedded in Array / List / Table value / Tree key) and, for containers, "
+        "through generated histories (seq: push, direct, push_at front, detour, trim by resize, clear+refill, copy, assign "
+        "over a container of the same / another element type, assign from an empty source then fill, concat, reserve, stack "
+        "tuple, Tuple assigned from an Array; Tree: direct, detour with removals, copy, assign from a Tree / a Table / over a "
+        "Tree of other key+value types, clear+refill); all 9 ordered pairs are compared with cmp and the six predicates, then "
+        "scalar values are used as Tree keys. non-trivial = some pair is reference-unequal and (Int: |a-b| >= 2^31; Float: "
+        "involves +-0, inf, a denormal or 1-ulp neighbours; String: proper prefix or a byte >= 0x80; Type/struct: always; "
+        "sequence/Tree: common prefix >= 1 element and differing in length or in the last compared element). "
+        "distinct = distinct case JSON.")
 ASSUMPTIONS = ["Tree elements are compared in the order the implementation's own forward iteration yields them (checked by C03/C11)",
-               "NaN excluded (statement); cross-family comparisons (Int vs String...) are out of contract and not generated"]
+               "NaN excluded (statement); cross-family comparisons (Int vs String...) are out of contract and not generated",
+               "run-time created types get names that no other type in the process carries (two distinct type objects with one "
+               "name: name order says equal, 'only for equal values' says unequal - not asserted either way)",
+               "a sequence reached through a history is dumped before it is compared; a dump that differs from the generated "
+               "element list is reported as a failed set-up (a defect of the history operation, C04's subject), not as an order"]
 
 TYPE_NAMES = ["Int", "Float", "String", "Array", "List", "Table", "Tree", "Tuple", "Type", "Ref", "Box", "Range",
               "Slice", "Zip", "Filter", "Map", "File", "Mutex", "Thread", "Function", "Exception", "KeyError",
               "IOError", "TypeError", "ValueError", "Cmp", "Hash", "Len", "Iter", "Get", "Push", "C_Str", "C_Int",
               # user types whose names are prefixes / extensions of other names
               "Blob", "Blo", "BlobX", "In", "IntX", "Blo", "BlobX", "In", "IntX"]
+# names for run-time created types: prefixes / extensions of built-in names, none carried by another type of the executor
+DYN_NAMES = [b"Int_", b"In_", b"I", b"Strin", b"Stringy", b"Tre", b"Tree2", b"A", b"Arra", b"Arrayz", b"Zz", b"Bl", b"Blob_",
+             b"Uber", b"\xc3\x9cber", b"Typ", b"Typed"]
+
+BLOB_T = {3: ("Blob3", "b3:"), 16: ("Blob", "b:"), 20: ("Blob20", "b20:"), 75: ("Blob75", "b75:")}
+ALLOCS = ["heap", "stack", "embed", "heap", "stack", "embed", "lst", "tabv", "treek"]
+
+SEQ_HOWS = ["push", "direct", "front", "detour", "trim", "clear_refill", "copy", "assign", "assign_retype",
+            "assign_empty_fill", "concat", "reserve"]
+TUP_HOWS = ["direct", "push", "stup", "detour", "trim", "copy", "assign", "from_array", "concat"]
+MAP_HOWS = ["direct", "direct", "detour", "copy", "assign", "assign_x", "assign_retype", "clear_refill"]
+# element type (and one literal) a container holds before it is retyped by assign: another size (Int 8 -> Blob20 24),
+# a type without destructor -> one with (Int -> String) and the reverse (String -> Float)
+OTHER_LIT = {"Int": ("Blob20", "b20:" + "5a" * 20), "String": ("Int", "i:7"), "Float": ("String", "s:6f6c64"),
+             "Blob20": ("Int", "i:7")}                      # ... and a smaller element (8) before a larger one (24)
 
 
 def prepare(tier):
     return {"ex_vm": build.executor("asan", "ex_vm")}
 
 
+# ---- container histories (shared with c10) ------------------------------------------------
+
+def seq_lines(slot, kind, et, lits, how, extra, fresh):
+    """ex_vm lines after which %slot is a `kind` holding exactly the literals `lits` (element type et), reached through
+    the history `how`.  extra: >= 1 literal of et for detours; fresh() hands out unused slots.  Every line answers ok."""
+    L = []
+    S = "%%%d" % slot
+    n = len(lits)
+    oet, olit = OTHER_LIT[et]
+
+    def objs(ls):
+        out = []
+        for x in ls:
+            s_ = fresh()
+            L.append("new %%%d heap t:%s %s" % (s_, et, x))
+            out.append("%%%d" % s_)
+        return out
+
+    if kind == "Tuple":
+        if how == "from_array":
+            a = fresh()
+            L.append(("new %%%d heap t:Array t:%s %s" % (a, et, " ".join(lits))).rstrip())
+            L.append("new %s heap t:Tuple" % S)
+            L.append("assign %s %%%d" % (S, a))
+            return L
+        refs = objs(lits)
+        if how == "stup":
+            L.append(("stup %s %s" % (S, " ".join(refs))).rstrip())
+        elif how in ("push", "detour"):
+            L.append("new %s heap t:Tuple" % S)
+            for j, r in enumerate(refs):
+                L.append("push %s %s" % (S, r))
+                if how == "detour" and j == n // 2:
+                    x = objs(extra[:1])[0]
+                    L.append("push %s %s" % (S, x))
+                    L.append("pop %s" % S)
+            if how == "detour" and n:
+                x = objs(extra[:1])[0]
+                L.append("push_at %s %s i:0" % (S, x))      # push_at needs an existing position: not on an empty container
+                L.append("pop_at %s i:0" % S)
+        elif how == "trim":
+            L.append("new %s heap t:Tuple %s" % (S, " ".join(refs + objs(extra))))
+            L.append("resize %s %d" % (S, n))
+        elif how == "concat":
+            h = n // 2
+            a = fresh()
+            L.append(("new %s heap t:Tuple %s" % (S, " ".join(refs[:h]))).rstrip())
+            L.append(("stup %%%d %s" % (a, " ".join(refs[h:]))).rstrip())
+            L.append("concat %s %%%d" % (S, a))
+        elif how in ("copy", "assign"):
+            a = fresh()
+            L.append(("new %%%d heap t:Tuple %s" % (a, " ".join(refs))).rstrip())
+            if how == "copy":
+                L.append("copy %s %%%d" % (S, a))
+            else:
+                L.append("new %s heap t:Tuple %s" % (S, objs(extra[:1])[0]))
+                L.append("assign %s %%%d" % (S, a))
+        else:                                   # direct (also the fallback for histories a Tuple does not have)
+            L.append(("new %s heap t:Tuple %s" % (S, " ".join(refs))).rstrip())
+        return L
+    other = "List" if kind == "Array" else "Array"
+    if how == "direct":
+        L.append(("new %s heap t:%s t:%s %s" % (S, kind, et, " ".join(lits))).rstrip())
+    elif how == "front":
+        L.append("new %s heap t:%s t:%s" % (S, kind, et))
+        for j, x in enumerate(reversed(lits)):
+            L.append("push_at %s %s i:0" % (S, x) if j else "push %s %s" % (S, x))
+    elif how == "detour":
+        L.append("new %s heap t:%s t:%s" % (S, kind, et))
+        for j, x in enumerate(lits):
+            L.append("push %s %s" % (S, x))
+            if j == n // 2:
+                for e in extra:
+                    L.append("push %s %s" % (S, e))
+                for e in extra:
+                    L.append("pop %s" % S)
+        if n:
+            L.append("push_at %s %s i:0" % (S, extra[0]))
+            L.append("pop_at %s i:0" % S)
+    elif how == "trim":
+        L.append("new %s heap t:%s t:%s" % (S, kind, et))
+        for x in list(lits) + list(extra):
+            L.append("push %s %s" % (S, x))
+        L.append("resize %s %d" % (S, n))
+    elif how == "clear_refill":
+        L.append("new %s heap t:%s t:%s %s" % (S, kind, et, " ".join(extra)))
+        L.append("resize %s 0" % S)
+        for x in lits:
+            L.append("push %s %s" % (S, x))
+    elif how in ("copy", "assign", "assign_retype"):
+        a = fresh()
+        if how == "copy":
+            L.append(("new %%%d heap t:%s t:%s %s" % (a, kind, et, " ".join(lits))).rstrip())
+            L.append("copy %s %%%d" % (S, a))
+        else:
+            L.append(("new %%%d heap t:%s t:%s %s" % (a, other, et, " ".join(lits))).rstrip())
+            if how == "assign":
+                L.append("new %s heap t:%s t:%s %s" % (S, kind, et, " ".join(extra)))
+            else:
+                L.append("new %s heap t:%s t:%s %s %s" % (S, kind, oet, olit, olit))
+            L.append("assign %s %%%d" % (S, a))
+    elif how == "assign_empty_fill":
+        a = fresh()
+        L.append("new %%%d heap t:%s t:%s" % (a, other, et))
+        L.append("new %s heap t:%s t:%s %s %s" % (S, kind, oet, olit, olit))
+        L.append("assign %s %%%d" % (S, a))
+        for x in lits:
+            L.append("push %s %s" % (S, x))
+    elif how == "concat":
+        h = n // 2
+        a = fresh()
+        L.append(("new %s heap t:%s t:%s %s" % (S, kind, et, " ".join(lits[:h]))).rstrip())
+        L.append(("new %%%d heap t:%s t:%s %s" % (a, other, et, " ".join(lits[h:]))).rstrip())
+        L.append("concat %s %%%d" % (S, a))
+    else:                                       # push, reserve
+        L.append("new %s heap t:%s t:%s" % (S, kind, et))
+        if how == "reserve" and kind == "Array":
+            L.append("resize %s %d" % (S, n + 9))
+        for x in lits:
+            L.append("push %s %s" % (S, x))
+    return L
+
+
+def map_lines(slot, kind, kt, vt, pairs, how, extra, fresh, reserve=0):
+    """ex_vm lines after which %slot is a `kind` (Table | Tree) of kt -> vt on which `pairs` [(klit, vlit)...] were set in
+    order, reached through the history `how`.  extra: [(klit, vlit)...] whose keys are not among the pairs' keys."""
+    L = []
+    S = "%%%d" % slot
+    okt = "String" if kt != "String" else "Int"
+    ovt = "Blob" if vt != "Blob" else "Int"            # another value size (16 bytes against 8)
+    olit = {"String": "s:6b", "Int": "i:1", "Blob": "b:" + "5a" * 16}
+
+    def fill(tgt, k_):
+        L.append("new %s heap t:%s t:%s t:%s" % (tgt, k_, kt, vt))
+        if reserve and k_ == "Table":
+            L.append("resize %s %d" % (tgt, reserve + len(pairs)))
+        for (a, b) in pairs:
+            L.append("set %s %s %s" % (tgt, a, b))
+
+    if how == "detour" and extra:
+        L.append("new %s heap t:%s t:%s t:%s" % (S, kind, kt, vt))
+        at = len(pairs) // 2
+        for j, (a, b) in enumerate(pairs):
+            if j == at:
+                for (x, y) in extra:
+                    L.append("set %s %s %s" % (S, x, y))
+            L.append("set %s %s %s" % (S, a, b))
+        if at >= len(pairs):
+            for (x, y) in extra:
+                L.append("set %s %s %s" % (S, x, y))
+        for x in sorted(set(x for (x, y) in extra)):
+            L.append("rem %s %s" % (S, x))
+    elif how == "clear_refill":
+        L.append("new %s heap t:%s t:%s t:%s" % (S, kind, kt, vt))
+        for (x, y) in list(extra) + list(reversed(pairs[:2])):
+            L.append("set %s %s %s" % (S, x, y))
+        L.append("resize %s 0" % S)
+        for (a, b) in pairs:
+            L.append("set %s %s %s" % (S, a, b))
+    elif how in ("copy", "assign", "assign_x", "assign_retype"):
+        a_ = "%%%d" % fresh()
+        fill(a_, kind if how != "assign_x" else ("Tree" if kind == "Table" else "Table"))
+        if how == "copy":
+            L.append("copy %s %s" % (S, a_))
+        else:
+            if how == "assign_retype":
+                L.append("new %s heap t:%s t:%s t:%s" % (S, kind, okt, ovt))
+                L.append("set %s %s %s" % (S, olit[okt], olit[ovt]))
+            else:
+                L.append("new %s heap t:%s t:%s t:%s" % (S, kind, kt, vt))
+                for (x, y) in extra[:1]:
+                    L.append("set %s %s %s" % (S, x, y))
+            L.append("assign %s %s" % (S, a_))
+    else:
+        fill(S, kind)
+    return L
+
+
 # ---- generators -------------------------------------------------------------------------
-
-def _triple(elem, mutate=None):
-    base = st.lists(elem, min_size=3, max_size=3)
-    return base
-
 
 def _scalar(kind):
     if kind == "int":
@@ -41,9 +239,8 @@ def _scalar(kind):
     if kind == "str":
         return gen.cbytes().map(lambda b: ["str", b.hex()])
     if kind == "type":
-        return st.sampled_from(TYPE_NAMES).map(lambda n: ["type", n])
-    if kind == "blob":
-        return st.binary(min_size=16, max_size=16).map(lambda b: ["blob", b.hex()])
+        return st.one_of(st.sampled_from(TYPE_NAMES).map(lambda n: ["type", n]),
+                         st.sampled_from(DYN_NAMES).map(lambda b: ["dtype", b.hex()]))
     raise ValueError(kind)
 
 
@@ -73,9 +270,14 @@ def _related_ints(draw):
 @st.composite
 def _related_strs(draw):
     a = draw(gen.cbytes())
+    if draw(st.integers(0, 3)) == 0:
+        # a long common prefix: lengths around typical buffer / word sizes, the difference sits at the far end
+        n = draw(st.sampled_from([31, 32, 33, 63, 64, 65, 127, 128, 129, 255, 256, 257, 1000, 4097]))
+        unit = draw(gen.cbytes(6)) or b"a"
+        a = (unit * (n // len(unit) + 1))[:n] + draw(gen.cbytes(3))
     out = [a]
     for _ in range(2):
-        how = draw(st.integers(0, 4))
+        how = draw(st.integers(0, 5))
         if how == 0:
             b = draw(gen.cbytes())
         elif how == 1:
@@ -85,6 +287,9 @@ def _related_strs(draw):
         elif how == 3 and a:
             i = draw(st.integers(0, len(a) - 1))
             b = a[:i] + bytes([draw(st.sampled_from([1, 0x7f, 0x80, 0xff, 0x41]))]) + a[i + 1:]
+        elif how == 5 and a:
+            i = len(a) - 1 - draw(st.integers(0, min(8, len(a) - 1)))
+            b = a[:i] + bytes([draw(st.sampled_from([1, 0x7f, 0x80, 0xff, 0x41]))]) + a[i + 1:draw(st.integers(i + 1, len(a)))]
         else:
             b = a
         out.append(b)
@@ -116,6 +321,27 @@ def _related_flts(draw):
     return [["flt", gen.f2b(x)] for x in out]
 
 
+@st.composite
+def _related_blobs(draw):
+    """plain structs of one size (3, 16, 20 or 75 bytes): byte-wise order, the difference at any position incl. the last"""
+    n = draw(st.sampled_from([16, 16, 3, 20, 75]))
+    edge = [bytes(n), bytes(n - 1) + b"\x01", b"\x80" + bytes(n - 1), b"\x7f" + bytes(n - 1), b"\xff" * n]
+    a = draw(st.one_of(st.binary(min_size=n, max_size=n), st.sampled_from(edge)))
+    out = [a]
+    for _ in range(2):
+        how = draw(st.integers(0, 3))
+        if how == 0:
+            b = draw(st.one_of(st.binary(min_size=n, max_size=n), st.sampled_from(edge)))
+        elif how in (1, 2):
+            i = draw(st.sampled_from([0, n - 1, n - 2, (n // 8) * 8 - 1 if n >= 8 else 0, (n // 8) * 8 if n % 8 else n - 1,
+                                      draw(st.integers(0, n - 1))]))
+            b = a[:i] + bytes([draw(st.sampled_from([0, 1, 0x7f, 0x80, 0xff, (a[i] + 1) % 256]))]) + a[i + 1:]
+        else:
+            b = a
+        out.append(b)
+    return [["blob", b.hex()] for b in out]
+
+
 def _elems(et):
     if et == "Int":
         return st.one_of(st.integers(-3, 3), gen.ints())
@@ -123,13 +349,21 @@ def _elems(et):
         return st.one_of(st.sampled_from([b"", b"a", b"ab", b"b", b"\x80"]), gen.cbytes(6)).map(lambda b: b.hex())
     if et == "Float":
         return st.one_of(st.sampled_from([0.0, -0.0, 1.0, -1.0, 0.5]), gen.finite_floats()).map(gen.f2b)
+    if et == "Blob20":
+        return st.one_of(st.sampled_from([bytes(20), bytes(19) + b"\x01", b"\x80" + bytes(19), b"\xff" * 20]),
+                         st.binary(min_size=20, max_size=20)).map(lambda b: b.hex())
     raise ValueError(et)
+
+
+def _base_list(elem):
+    return st.one_of(st.lists(elem, max_size=6), st.lists(elem, max_size=6), st.lists(elem, max_size=6),
+                     st.lists(elem, min_size=7, max_size=30))
 
 
 @st.composite
 def _seqs(draw):
-    et = draw(st.sampled_from(["Int", "Int", "String", "Float"]))
-    base = draw(st.lists(_elems(et), max_size=6))
+    et = draw(st.sampled_from(["Int", "Int", "String", "Float", "Blob20"]))
+    base = draw(_base_list(_elems(et)))
     vals = []
     for i in range(3):
         how = draw(st.integers(0, 5)) if i else 0
@@ -146,31 +380,59 @@ def _seqs(draw):
         elif how == 5:
             items = draw(st.lists(_elems(et), max_size=6))
         kind = draw(st.sampled_from(["Array", "List", "Tuple"]))
-        vals.append(["seq", kind, et, items])
+        hist = draw(st.sampled_from(TUP_HOWS if kind == "Tuple" else SEQ_HOWS))
+        vals.append(["seq", kind, et, items, hist, draw(st.lists(_elems(et), min_size=1, max_size=2))])
+    return vals
+
+
+@st.composite
+def _nested(draw):
+    """Tuples (heap or stack) whose elements are themselves Array / List / Tuple of Int: the induced order recurses"""
+    inner = st.tuples(st.sampled_from(["Array", "List", "Tuple"]), st.lists(st.integers(-2, 2), max_size=3))
+    base = draw(st.lists(inner, max_size=4))
+    vals = []
+    for i in range(3):
+        how = draw(st.integers(0, 4)) if i else 0
+        items = [[k, list(x)] for (k, x) in base]
+        if how == 1:
+            items = items[:draw(st.integers(0, len(items)))]
+        elif how == 2:
+            items.append(list(draw(inner)))
+        elif how == 3 and items:
+            j = draw(st.integers(0, len(items) - 1))
+            items[j] = list(draw(inner))
+        elif how == 4 and items:
+            # same elements, other inner kinds
+            items = [[draw(st.sampled_from(["Array", "List", "Tuple"])), x] for (k, x) in items]
+        vals.append(["nest", draw(st.sampled_from(["Tuple", "stup"])), [[k, list(x)] for (k, x) in items]])
     return vals
 
 
 @st.composite
 def _trees(draw):
-    kt = draw(st.sampled_from(["Int", "String"]))
-    vt = draw(st.sampled_from(["Int", "String"]))
-    base = draw(st.lists(st.tuples(_elems(kt), _elems(vt)), max_size=5))
+    kt = draw(st.sampled_from(["Int", "String", "Int", "String", "Float"]))
+    vt = draw(st.sampled_from(["Int", "String", "Float"]))
+    pair = st.tuples(_elems(kt), _elems(vt))
+    base = draw(st.one_of(st.lists(pair, max_size=5), st.lists(pair, max_size=5), st.lists(pair, min_size=6, max_size=20)))
     vals = []
     for i in range(3):
         pairs = [list(p) for p in base]
-        how = draw(st.integers(0, 4)) if i else 0
+        how = draw(st.integers(0, 5)) if i else 0
         if how == 1 and pairs:
             pairs.pop(draw(st.integers(0, len(pairs) - 1)))
         elif how == 2:
-            pairs.append(list(draw(st.tuples(_elems(kt), _elems(vt)))))
+            pairs.append(list(draw(pair)))
         elif how == 3 and pairs:
             j = draw(st.integers(0, len(pairs) - 1))
             pairs[j][1] = draw(_elems(vt))
         elif how == 4:
-            pairs = [list(p) for p in draw(st.lists(st.tuples(_elems(kt), _elems(vt)), max_size=5))]
+            pairs = [list(p) for p in draw(st.lists(pair, max_size=5))]
+        elif how == 5 and len(pairs) <= 8:
+            pairs = [list(p) for p in draw(st.permutations(pairs))]
         if draw(st.booleans()):
             pairs = list(reversed(pairs))
-        vals.append(["tree", kt, vt, pairs])
+        vals.append(["tree", kt, vt, pairs, draw(st.sampled_from(MAP_HOWS)),
+                     [list(p) for p in draw(st.lists(pair, min_size=1, max_size=3))]])
     return vals
 
 
@@ -204,11 +466,10 @@ def strategy(tier):
         _alias_tuples(),
         _related_ints(), _related_ints(), _related_strs(), _related_flts(),
         st.lists(_scalar("type"), min_size=3, max_size=3),
-        st.lists(_scalar("blob"), min_size=3, max_size=3),
-        st.lists(st.sampled_from([bytes(16), bytes(15) + b"\x01", b"\x80" + bytes(15), b"\x7f" + bytes(15), b"\xff" * 16]).map(lambda b: ["blob", b.hex()]), min_size=3, max_size=3),
-        _seqs(), _seqs(), _trees())
+        _related_blobs(), _related_blobs(),
+        _seqs(), _seqs(), _nested(), _trees(), _trees())
     return st.fixed_dictionaries({"vals": vals,
-                                  "alloc": st.lists(st.sampled_from(["heap", "stack", "embed"]), min_size=3, max_size=3)})
+                                  "alloc": st.lists(st.sampled_from(ALLOCS), min_size=3, max_size=3)})
 
 
 # ---- encoding ---------------------------------------------------------------------------
@@ -222,7 +483,10 @@ def _enc_scalar(v):
     if k == "str":
         return "String", "s:" + v[1]
     if k == "blob":
-        return "Blob", "b:" + v[1]
+        n = len(v[1]) // 2
+        if n not in BLOB_T:
+            raise HarnessBug("blob size %d" % n)
+        return BLOB_T[n][0], BLOB_T[n][1] + v[1]
     raise HarnessBug("scalar kind " + k)
 
 
@@ -233,16 +497,31 @@ def _enc_elem(et, e):
         return "s:" + e
     if et == "Float":
         return "f:%016x" % e
+    if et == "Blob20":
+        return "b20:" + e
     raise HarnessBug(et)
 
 
+def _how_of(v):
+    """history of a container value (cases written before histories existed have none)"""
+    if v[0] == "seq":
+        return v[4] if len(v) > 4 else ("direct" if v[1] == "Tuple" else "push")
+    if v[0] == "tree":
+        return v[4] if len(v) > 4 else "direct"
+    return None
+
+
 def encode(case):
-    """slots 0..2 hold the three values; auxiliary objects go to 10.."""
+    """slots 0..2 hold the three values; auxiliary objects go to 10..  Returns (lines, expected dumps {line index: text})"""
     lines = []
+    dumps = {}
     aux = [10]
+    dyn = {}
 
     def fresh():
         aux[0] += 1
+        if aux[0] >= 250:
+            raise HarnessBug("out of slots")
         return aux[0]
 
     for i, v in enumerate(case["vals"]):
@@ -250,16 +529,35 @@ def encode(case):
         k = v[0]
         if k == "type":
             lines.append("tmp %%%d t:%s" % (i, v[1]))
+        elif k == "dtype":
+            if v[1] not in dyn:
+                dyn[v[1]] = fresh()
+                lines.append("new %%%d heap t:Type s:%s i:8" % (dyn[v[1]], v[1]))
+            lines.append("tmp %%%d %%%d" % (i, dyn[v[1]]))
         elif k in ("int", "flt", "str", "blob"):
             tn, lit = _enc_scalar(v)
-            if al == "stack" or (k == "blob" and al != "embed"):
+            if al == "treek" and k == "blob":
+                al = "tabv"
+            if al == "stack":
                 lines.append("tmp %%%d %s" % (i, lit))
             elif al == "heap":
                 lines.append("new %%%d heap t:%s %s" % (i, tn, lit))
-            else:
+            elif al in ("embed", "lst"):
                 a = fresh()
-                lines.append("new %%%d heap t:Array t:%s %s" % (a, tn, lit))
+                lines.append("new %%%d heap t:%s t:%s %s" % (a, "Array" if al == "embed" else "List", tn, lit))
                 lines.append("get %%%d i:0 %%%d" % (a, i))
+            elif al == "tabv":
+                a = fresh()
+                lines.append("new %%%d heap t:Table t:Int t:%s" % (a, tn))
+                lines.append("set %%%d i:1 %s" % (a, lit))
+                lines.append("get %%%d i:1 %%%d" % (a, i))
+            elif al == "treek":
+                a = fresh()
+                lines.append("new %%%d heap t:Tree t:%s t:Int" % (a, tn))
+                lines.append("set %%%d %s i:1" % (a, lit))
+                lines.append("findkey %%%d %s %%%d" % (a, lit, i))
+            else:
+                raise HarnessBug("alloc " + al)
         elif k == "atup":
             _, et, pool, idx = v
             ps = []
@@ -269,28 +567,37 @@ def encode(case):
                 ps.append("%%%d" % sl)
             lines.append("new %%%d heap t:Tuple %s" % (i, " ".join(ps[j] for j in idx)))
         elif k == "seq":
-            _, kind, et, items = v
-            if kind == "Tuple":
-                refs = []
-                for e in items:
-                    s = fresh()
-                    lines.append("new %%%d heap t:%s %s" % (s, et, _enc_elem(et, e)))
-                    refs.append("%%%d" % s)
-                lines.append("new %%%d heap t:Tuple %s" % (i, " ".join(refs)))
+            kind, et, items = v[1], v[2], v[3]
+            lits = [_enc_elem(et, e) for e in items]
+            extra = [_enc_elem(et, e) for e in (v[5] if len(v) > 5 else items[:1] or [{"Int": 0, "String": "61", "Float": 0, "Blob20": "00" * 20}[et]])]
+            lines += seq_lines(i, kind, et, lits, _how_of(v), extra, fresh)
+            dumps[len(lines)] = "ok %s[%s]" % ({"Array": "A", "List": "L", "Tuple": "U"}[kind], ",".join(l.replace(":", "", 1) for l in lits))
+            lines.append("repr %%%d" % i)
+        elif k == "nest":
+            refs = []
+            for (ik, xs) in v[2]:
+                s_ = fresh()
+                lines += seq_lines(s_, ik, "Int", ["i:%d" % x for x in xs], "direct", ["i:0"], fresh)
+                refs.append("%%%d" % s_)
+            if v[1] == "stup":
+                lines.append(("stup %%%d %s" % (i, " ".join(refs))).rstrip())
             else:
-                lines.append("new %%%d heap t:%s t:%s" % (i, kind, et))
-                for e in items:
-                    lines.append("push %%%d %s" % (i, _enc_elem(et, e)))
+                lines.append(("new %%%d heap t:Tuple %s" % (i, " ".join(refs))).rstrip())
         elif k == "tree":
-            _, kt, vt, pairs = v
-            lines.append("new %%%d heap t:Tree t:%s t:%s" % (i, kt, vt))
-            for (a, b) in pairs:
-                lines.append("set %%%d %s %s" % (i, _enc_elem(kt, a), _enc_elem(vt, b)))
+            kt, vt, pairs = v[1], v[2], v[3]
+            ps = [(_enc_elem(kt, a), _enc_elem(vt, b)) for (a, b) in pairs]
+            have = set(_elem_key(kt, a) for (a, b) in pairs)
+            extra, seen_x = [], set(have)
+            for (a, b) in (v[5] if len(v) > 5 else []):
+                if _elem_key(kt, a) not in seen_x:          # keys equal as values (0.0 and -0.0) are one key
+                    seen_x.add(_elem_key(kt, a))
+                    extra.append((_enc_elem(kt, a), _enc_elem(vt, b)))
+            lines += map_lines(i, "Tree", kt, vt, ps, _how_of(v), extra, fresh)
             lines.append("fwdkv %%%d" % i)
         else:
             raise HarnessBug(k)
     lines.append("mark")
-    return lines
+    return lines, dumps
 
 
 # ---- reference --------------------------------------------------------------------------
@@ -306,6 +613,8 @@ def _elem_key(et, e):
         return bytes.fromhex(e)
     if et == "Float":
         return gen.b2f(e)
+    if et == "Blob20":
+        return bytes.fromhex(e)
     raise HarnessBug(et)
 
 
@@ -336,10 +645,14 @@ def ref_value(v, obs_tree=None):
         return bytes.fromhex(v[1])
     if k == "type":
         return v[1].encode()
+    if k == "dtype":
+        return bytes.fromhex(v[1])
     if k == "atup":
         return [_elem_key(v[1], v[2][j]) for j in v[3]]
     if k == "seq":
         return [_elem_key(v[2], e) for e in v[3]]
+    if k == "nest":
+        return [list(xs) for (ik, xs) in v[2]]
     if k == "tree":
         return obs_tree
     raise HarnessBug(k)
@@ -381,7 +694,7 @@ def _nontrivial(case, keys):
             elif k == "str":
                 if a.startswith(b) or b.startswith(a) or any(c >= 0x80 for c in a + b):
                     return True
-            elif k in ("type", "blob"):
+            elif k in ("type", "dtype", "blob"):
                 return True
             else:
                 n = 0
@@ -394,9 +707,39 @@ def _nontrivial(case, keys):
     return False
 
 
+def _events(case):
+    vals = case["vals"]
+    kind = vals[0][0]
+    fam = {"atup": "seq", "nest": "seq", "dtype": "type"}.get(kind, kind)
+    ev = ["kind=" + fam]
+    if kind == "atup":
+        ev.append("seq:aliased-tuple")
+    if kind == "nest":
+        ev.append("seq:nested")
+        if any(v[1] == "stup" for v in vals):
+            ev.append("seq-how=stup")
+    if fam == "type" and any(v[0] == "dtype" for v in vals):
+        ev.append("type:run-time-created")
+    if kind == "blob":
+        ev.append("blob:size=%d" % (len(vals[0][1]) // 2))
+    if kind == "str" and any(len(v[1]) >= 62 for v in vals):
+        ev.append("str:long>=31")
+    if kind in ("int", "flt", "str", "blob"):
+        ev += sorted(set("alloc=" + a for a in case["alloc"]))
+    if kind in ("seq", "atup"):
+        ev += sorted(set("seq-how=" + _how_of(v) for v in vals if v[0] == "seq"))
+        if any(v[0] == "seq" and len(v[3]) >= 7 for v in vals):
+            ev.append("seq:len>=7")
+    if kind == "tree":
+        ev += sorted(set("tree-how=" + _how_of(v) for v in vals))
+        if any(len(v[3]) >= 6 for v in vals):
+            ev.append("tree:len>=6")
+    return ev
+
+
 def run_case(ctx, case):
     ex = ctx.executor("ex_vm")
-    lines = encode(case)
+    lines, dumps = encode(case)
     prog = [l for l in lines if l != "mark"]
     pairs = [(i, j) for i in range(3) for j in range(3)]
     if case["vals"][0][0] == "atup":
@@ -404,9 +747,6 @@ def run_case(ctx, case):
     for (i, j) in pairs:
         prog.append("cmp %%%d %%%d" % (i, j))
     kind = case["vals"][0][0]
-    if kind == "atup":
-        kind = "seq"
-        ev_alias = True
     follow = kind in ("int", "str", "flt")
     if follow:
         tn = {"int": "Int", "str": "String", "flt": "Float"}[kind]
@@ -417,12 +757,11 @@ def run_case(ctx, case):
             prog.append("mem %%5 %%%d" % i)
         prog.append("len %5")
     obs = ex.run("\n".join(prog))
-    ev = ["kind=" + kind]
+    ev = _events(case)
     if len(obs) != len(prog):
         return Result("executor stopped early: %s" % (obs[-1] if obs else "no output"), False, ev, obs)
     # build reference keys
     keys = []
-    oi = 0
     tree_obs = []
     for idx, l in enumerate(prog):
         if l.startswith("fwdkv"):
@@ -445,6 +784,12 @@ def run_case(ctx, case):
             keys.append(ref_value(v))
     for idx, l in enumerate(prog):
         if not l.startswith("cmp") and not obs[idx].startswith("ok"):
+            return Result("setup op failed: %s -> %s" % (l, obs[idx]), False, ev, obs)
+        if " depth=" in obs[idx] or " inv=" in obs[idx]:
+            return Result("op `%s` left exception state behind: %s" % (l, obs[idx]), False, ev, obs)
+        if idx in dumps and obs[idx] != dumps[idx]:
+            return Result("setup: the container built by the history before `%s` shows %s, expected %s" % (l, obs[idx], dumps[idx]), False, ev, obs)
+        if l.startswith("findkey") and obs[idx] != "ok found":
             return Result("setup op failed: %s -> %s" % (l, obs[idx]), False, ev, obs)
     base = len(prog) - len(pairs) - (8 if follow else 0)
     got = {}
